@@ -412,13 +412,17 @@ Record srv_case := mkSrv
     v_tabs : srv_tabs;
     v_bindok : bool;                               (* observed: Start got past bindRoutes *)
     v_cors : bool;                                 (* rest.WithCors, and the requests went through the CORS router *)
+    v_clean : list (Z * Z);                        (* received path -> path.Clean of it, where they differ (computed by the
+                                                      generator's own implementation of Go's path.Clean) *)
     v_reqs : list (sreq * nat * srv_obs) }.        (* request, index of the group it is aimed at, observation *)
+
+Definition srv_clean (c : srv_case) (p : Z) : Z := match lookup p (v_clean c) with Some p' => p' | None => p end.
 
 Definition model_srv (c : srv_case) : bool * list sout :=
   let t := v_tabs c in
-  run_server_cors unknown_length_fix (fun k => memz k (v_keyok c)) (tab_mac (t_mac t)) (tabs_rsa t) (tab_cmac (t_cmac t)) (tabs_sha t)
+  run_server_recv unknown_length_fix (fun k => memz k (v_keyok c)) (tab_mac (t_mac t)) (tabs_rsa t) (tab_cmac (t_cmac t)) (tabs_sha t)
              (tabs_aes t) (tabs_e t) (tabs_d t) enc_b64 (tabs_b64 t)
-             (v_cors c) (v_limit c) (v_groups c) (map (fun x => fst (fst x)) (v_reqs c)).
+             (v_cors c) (srv_clean c) (v_limit c) (v_groups c) (map (fun x => fst (fst x)) (v_reqs c)).
 
 Definition resp_match2 (m raw : list Z) (dec : option (list Z)) : bool :=
   match m with
@@ -487,14 +491,19 @@ Definition prop_srv1 (c : srv_case) (x : sreq * nat * srv_obs) : bool :=
                                then signed_spec_srv t sc (q_now q) (q_cs q) else true
                   | None => true
                   end in
-    existsb (route_eqb (q_route q)) (g_routes g) &&
+    (* the route the router finds for the request: under the CLEANED path; everything else is judged on the
+       request as received *)
+    let routed_ok := existsb (route_eqb (routed (srv_clean c) q)) (g_routes g) in
     (if so_ran o || so_mwran o then
-       (* only the handler registered for this very route, and only with credentials that are
-          valid for ITS OWN group's configuration *)
-       route_opt_eqb (so_route o) (if so_ran o then Some (q_route q) else None) && jwt_ok && sig_ok
+       (* only the handler registered for this very route (the one the router finds under the cleaned path, in
+          the group the request was aimed at), and only with credentials that are valid for ITS OWN group's
+          configuration *)
+       routed_ok &&
+       route_opt_eqb (so_route o) (if so_ran o then Some (routed (srv_clean c) q) else None) && jwt_ok && sig_ok
      else
-       (* a request the CORS router answers itself (OPTIONS behind rest.WithCors) never reaches the gate *)
-       let reaches := negb (v_cors c && (r_method (q_cs q) =? m_options)) in
+       (* a request the CORS router answers itself (OPTIONS behind rest.WithCors), or one whose spelling of path or
+          method the router does not map onto the route (404 / 405), never reaches the gate *)
+       let reaches := negb (v_cors c && (r_method (q_cs q) =? m_options)) && routed_ok in
        (if negb jwt_ok && v_bindok c && reaches then so_status o =? 401 else true) &&
        negb ((so_uerr o =? 0) && negb jwt_ok && v_bindok c && reaches))
   end.
